@@ -309,6 +309,9 @@ func (g *coreGen) stmt(nest int) ref.Stmt {
 			if g.chance(70, "smallshift") {
 				r = intLitOf(int64(g.n(0, 8, "smallcount")))
 			}
+			if g.chance(30, "count-from-variable") {
+				r = g.varOf(pool.Ints, ref.TInt) // the count is read from a variable (which must not change)
+			}
 		case "/=", "%=":
 			r = g.intOperand()
 			if r.K == "int" && r.I == 0 {
